@@ -168,6 +168,9 @@ struct St {
     max_events: u64,
     /// how often each thread was given the baton
     granted: Vec<u64>,
+    /// stutter reduction: per thread (loop marker label, consecutive iterations, grants
+    /// to the other threads when the run of iterations began)
+    stutter: Vec<(&'static str, u32, u64)>,
 }
 
 pub struct Shared {
@@ -177,6 +180,9 @@ pub struct Shared {
 }
 
 struct AbortUnwind;
+
+const STUTTER_K: u32 = 4;
+const STUTTER_BODY: [&str; 3] = ["chk.wo", "chk.ao", "map.remove_if"];
 
 impl Shared {
     fn new(n: usize, prefix: Vec<(u16, u16)>, max_events: u64) -> Arc<Shared> {
@@ -194,6 +200,7 @@ impl Shared {
                 atomic: vec![false; n],
                 max_events,
                 granted: vec![0; n],
+                stutter: vec![("", 0, 0); n],
             }),
             cv: Condvar::new(),
             seq: AtomicU64::new(1),
@@ -301,8 +308,35 @@ impl Shared {
         }
         // loop-iteration markers only count towards the event budget (so that an unbounded
         // loop is a livelock); they are not choice points: the loop bodies have their own
-        if matches!(park, Park::Switch) && label.ends_with(".iter") {
-            return;
+        let free_block = match park {
+            Park::Block(pr) => unsafe { (*pr.0)() },
+            _ => false,
+        };
+        if matches!(park, Park::Switch) || free_block {
+            let others = st.grants - st.granted[me];
+            if label.ends_with(".iter") {
+                let s = &mut st.stutter[me];
+                if s.0 == label && s.2 == others {
+                    s.1 += 1;
+                } else {
+                    *s = (label, 1, others);
+                }
+                return;
+            }
+            // stutter reduction: a purge loop whose entry was already taken out of the map
+            // by a concurrent invalidate spins through its whole batch (up to 500
+            // iterations) without changing anything; after STUTTER_K iterations during
+            // which no other thread ran, the points inside the loop body stop being choice
+            // points (another thread could have been switched in at each of the first
+            // STUTTER_K iterations; later iterations repeat the same state)
+            if STUTTER_BODY.contains(&label) {
+                let s = st.stutter[me];
+                if s.1 > STUTTER_K && s.2 == others {
+                    return;
+                }
+            } else {
+                st.stutter[me] = ("", 0, 0);
+            }
         }
         let park = match park {
             Park::Yield(_) => Park::Yield(st.grants),
@@ -500,6 +534,12 @@ pub fn run_once(prog: &Program, hasher: &TableHasher, prefix: &[(u16, u16)], max
         if let Op::Ins(..) = op {
             pvid += 1;
         }
+        // a successful prefix lookup extends the entry's idle deadline: recorded (as
+        // thread -2) for the time-to-idle clause only
+        if let (Op::Get(k), Ok(obs @ Obs::Val(Some(_)))) = (op, &r) {
+            let t1 = sut.clock().elapsed().as_millis() as i64;
+            recs0.push(Rec { thread: -2, idx: i, op: TOp::Get(*k), vid: 0, start: 0, end: 0, t0, t1, obs: obs.clone(), completed: true });
+        }
     }
     let (cache, clock) = match &sut {
         Sut::S { c, clock } => (c.clone(), clock.clone()),
@@ -665,6 +705,9 @@ fn check_history(prog: &Program, all: &[Rec], viol: &mut Vec<Violation>) {
     if prog.threads.iter().flatten().any(|o| matches!(o, TOp::Burst(..))) {
         return;
     }
+    let prefix_reads: Vec<&Rec> = all.iter().filter(|r| r.thread == -2).collect();
+    let all_owned: Vec<Rec> = all.iter().filter(|r| r.thread != -2).cloned().collect();
+    let all = &all_owned[..];
     let inserts: Vec<&Rec> = all.iter().filter(|r| matches!(r.op, TOp::Ins(..))).collect();
     let observe = |k: u8, id: u32, reader: &Rec, how: &str, viol: &mut Vec<Violation>| {
         let src = inserts.iter().find(|i| i.vid == id && matches!(i.op, TOp::Ins(k2, _) if k2 == k));
@@ -762,6 +805,7 @@ fn check_history(prog: &Program, all: &[Rec], viol: &mut Vec<Violation>) {
                 .filter(|x| !std::ptr::eq(*x, r) && !after(x, r))
                 .filter(|x| matches!(x.op, TOp::Ins(k2, _) if k2 == k) || (matches!(x.op, TOp::Get(k2) if k2 == k) && matches!(x.obs, Obs::Val(Some(_)))))
                 .map(|x| if x.completed { x.t1 } else { i64::MAX })
+                .chain(prefix_reads.iter().filter(|x| matches!(x.op, TOp::Get(k2) if k2 == k)).map(|x| x.t1))
                 .max()
                 .unwrap_or(i64::MAX);
             if latest_access != i64::MAX && r.t0 >= latest_access + d {
@@ -981,7 +1025,7 @@ pub fn explore(prog: &Program, bound: u32, max_schedules: u64, deadline: Instant
     let mut outcomes: HashSet<u64> = HashSet::new();
     let mut sigs: HashSet<(String, String)> = HashSet::new();
     let prune = crate::seqx::Prune::from_env();
-    let max_events = 6000 + prog.threads.iter().flatten().map(|o| if let TOp::Burst(n, _) = o { *n as u64 * 40 } else { 0 }).sum::<u64>();
+    let max_events = 40000 + prog.threads.iter().flatten().map(|o| if let TOp::Burst(n, _) = o { *n as u64 * 40 } else { 0 }).sum::<u64>();
     // determinism: the first schedule twice
     journal.write(&witness(prog, &[]));
     let a = run_once(prog, &hasher, &[], max_events);
